@@ -18,7 +18,7 @@ inductive Re where
   | cls (neg : Bool) (ranges : List (Nat × Nat))
   | seq (a b : Re)
   | alt (a b : Re)
-  | rep (r : Re) (min : Nat) (max : Option Nat) (greedy : Bool)
+  | rep (r : Re) (min : Nat) (max : Option Nat) (greedy : Bool) (first : Bool := true)
   | group (idx : Nat) (r : Re)
   | bol | eol
   deriving Repr, Inhabited
@@ -138,10 +138,28 @@ def parseQuant (a : Re) (s : PState) : Re × PState :=
   | _ => (a, s)
 end
 
+/-- Can the expression match the empty string? -/
+def nullable : Re → Bool
+  | .empty => true | .byte _ => false | .any => false | .cls _ _ => false
+  | .seq a b => nullable a && nullable b
+  | .alt a b => nullable a || nullable b
+  | .rep r mn _ _ _ => mn == 0 || nullable r
+  | .group _ r => nullable r
+  | .bol => true | .eol => true
+
+/-- A repetition whose body can match the empty string (`(a*)*`, `(a??)+` …): engines differ in
+how they cut such loops, so these patterns are outside the modelled subset. -/
+def hasNullableLoop : Re → Bool
+  | .seq a b => hasNullableLoop a || hasNullableLoop b
+  | .alt a b => hasNullableLoop a || hasNullableLoop b
+  | .rep r _ mx _ _ => (nullable r && mx != some 1) || hasNullableLoop r
+  | .group _ r => hasNullableLoop r
+  | _ => false
+
 /-- Parse a pattern; `none` = outside the supported subset (or a syntax error). -/
 def parse (pat : Bytes) : Option (Re × Nat) :=
   match parseAlt (2 * pat.length + 4) { rest := pat, ngroups := 0 } with
-  | some (re, s) => if s.rest.isEmpty then some (re, s.ngroups) else none
+  | some (re, s) => if s.rest.isEmpty && !hasNullableLoop re then some (re, s.ngroups) else none
   | none => none
 
 /-! ### matcher -/
@@ -172,12 +190,12 @@ def m (subj : Array Nat) : Nat → Re → Nat → Caps → (Nat → Caps → Opt
     | .group idx r => m subj fuel r pos caps fun p c => k p (setCap c idx (pos, p))
     | .bol => if pos == 0 then k pos caps else none
     | .eol => if pos == subj.size then k pos caps else none
-    | .rep r mn mx greedy =>
+    | .rep r mn mx greedy first =>
       let more : Option (Nat × Caps) :=
         if mx == some 0 then none
         else m subj fuel r pos caps fun p c =>
-          if p == pos && mn == 0 then none     -- an empty iteration makes no progress
-          else m subj fuel (.rep r (mn - 1) (mx.map (· - 1)) greedy) p c k
+          if p == pos && mn == 0 then (if first then k p c else none)  -- empty iteration: only as the very first one
+          else m subj fuel (.rep r (mn - 1) (mx.map (· - 1)) greedy false) p c k
       if mn > 0 then more
       else if greedy then (match more with | some x => some x | none => k pos caps)
       else (match k pos caps with | some x => some x | none => more)
